@@ -153,8 +153,16 @@ pub fn run_c19(cfg: &RunCfg, trace: bool) -> RunOut {
             if matches!(want, Want::Unspec) || judge(&want, &got).is_some() {
                 break;
             }
+            // the path whose write handle is published by this step (append session or drop of an
+            // open append/create handle)
+            let published: Option<String> = match op {
+                Op::Write { append: true, .. } => Some(target.clone()),
+                Op::HDrop(slot) | Op::HFlush(slot) => before.w.get(slot).map(|ws| ws.path.clone()),
+                _ => None,
+            };
             match op {
-                Op::Write { append: true, .. } => {
+                Op::Write { append: true, .. } | Op::HDrop(_) | Op::HFlush(_) => {
+                    let target = published.clone().unwrap_or_default();
                     if let Some(v) = created_set.get(&target) {
                         if all_mem {
                             let m1 = meta_of(&cx.built[0], &cx.built[0].root, &target);
@@ -166,7 +174,7 @@ pub fn run_c19(cfg: &RunCfg, trace: bool) -> RunOut {
                         }
                     }
                 }
-                Op::Metadata(_) | Op::Exists(_) | Op::ReadFile(..) | Op::ReadDir(_) => {}
+                Op::Metadata(_) | Op::Exists(_) | Op::ReadFile(..) | Op::ReadDir(_) | Op::HWrite(..) => {}
                 _ => {
                     // anything that may replace the entry forgets the shadow value
                     created_set.retain(|p, _| cx.world.m[0].exists(p) && !op.paths().iter().any(|q| canon(&q.s).map(|c| &c == p || is_under(p, &c)).unwrap_or(false)));
